@@ -61,8 +61,12 @@ func (r *Report) Rule(id, text string, min int) {
 func (r *Report) add(rule, construct, status, pos, detail string) {
 	r.Obls = append(r.Obls, Obligation{Rule: rule, Construct: construct, Status: status, Pos: pos, Detail: detail, Config: r.cfg})
 }
-func (r *Report) OK(rule, construct, pos, detail string)   { r.add(rule, construct, Discharged, pos, detail) }
-func (r *Report) Fail(rule, construct, pos, detail string) { r.add(rule, construct, Violated, pos, detail) }
+func (r *Report) OK(rule, construct, pos, detail string) {
+	r.add(rule, construct, Discharged, pos, detail)
+}
+func (r *Report) Fail(rule, construct, pos, detail string) {
+	r.add(rule, construct, Violated, pos, detail)
+}
 func (r *Report) Unknown(rule, construct, pos, detail string) {
 	r.add(rule, construct, Undecided, pos, detail)
 }
